@@ -4,6 +4,7 @@ import (
 	"fmt"
 	"reflect"
 	"strings"
+	"sync"
 	"time"
 
 	psatoken "github.com/veraison/psatoken"
@@ -51,6 +52,11 @@ func c04Eval(c *choice.Ctx, st *Stats, t *wireToken) {
 				c.Failf(fmt.Sprintf("C04:fidelity:P%d:tagged-map", t.p), "getters differ from the wire\n got  %s\n want %s\n%s", gv, ev, diag())
 			}
 		}
+		// ... and if this tagging is taken around the plain valid claims map of the profile, the verdict on the map inside
+		// depends on nothing but its claims: a valid one is not refused
+		if len(t.open) == 1 && t.open[0] == "tagged-map" && len(t.bad) == 0 && err != nil && t.abs.Valid() && c04TaggingTaken(t) {
+			c.Failf(fmt.Sprintf("C04:rejected:P%d:%s", t.p, strings.Join(t.devs, ",")), "this tagging of the plain valid claims map is accepted, the same tagging of another valid claims map is rejected: %v\n%s", err, diag())
+		}
 		return
 	case wBad:
 		if err == nil {
@@ -84,6 +90,29 @@ func c04Eval(c *choice.Ctx, st *Stats, t *wireToken) {
 		}
 		st.Outcome("accepted")
 	}
+}
+
+var c04Tagging sync.Map // "p/tags" -> bool
+
+// c04TaggingTaken: is the tag nesting of t, put around the baseline valid claims map of its profile, accepted?
+func c04TaggingTaken(t *wireToken) bool {
+	var tags []uint64
+	n := t.tree
+	for n != nil && n.K == mcbor.Tag {
+		tags = append(tags, n.U)
+		n = n.Items[0]
+	}
+	key := fmt.Sprint(t.p, tags)
+	if v, ok := c04Tagging.Load(key); ok {
+		return v.(bool)
+	}
+	base := genWireToken(&choice.Ctx{}, t.p, 0).tree
+	for i := len(tags) - 1; i >= 0; i-- {
+		base = mcbor.Tg(tags[i], base)
+	}
+	_, err := psatoken.DecodeAndValidateClaimsFromCBOR(mcbor.Encode(base))
+	c04Tagging.Store(key, err == nil)
+	return err == nil
 }
 
 func init() {
